@@ -53,6 +53,8 @@ def iter_next(e, it):
     if isinstance(it, Ref):
         it = it.c.v
     if not isinstance(it, Iter):
+        if isinstance(it, Opaque) and getattr(it, 'next_fn', None) is not None:
+            return it.next_fn(e, it)
         if isinstance(it, Agg):
             if it.ty in ('Range', 'RangeInclusive', 'RangeFrom'):
                 raise Unsupported('next on raw range aggregate')
